@@ -27,6 +27,10 @@ func slidingLine(o *Out, prop string, c swCfg, ops []wop, tag string) error {
 		return err
 	}
 	obs := runWin(w, ops, false)
+	if obs == skipObs {
+		o.Count("not compared: several late updates around a nested delivery")
+		return nil
+	}
 	o.Line("%s S %d %d %d %d %d # %s # %s", prop, c.size, c.slide, c.ooo, c.late, harnessBase, opsString(ops), obs)
 	o.Count(tag)
 	return nil
@@ -58,11 +62,21 @@ func runC08(tier string, seed uint64, o *Out) error {
 	if err := slidingLine(o, "C08", swCfg{10, 5, 0, 30}, both, "corpus"); err != nil {
 		return err
 	}
+	// a late row whose late update is being delivered (window lock released) while the trigger code fires the next
+	// due interval: the younger on-time row must stay in the buffer for its intervals
+	lateDuring := []wop{{kind: 'A', id: 1, ts: 500}, {kind: 'A', id: 2, ts: 1500}, {kind: 'A', id: 3, ts: 2500}, {kind: 'X'},
+		{kind: 'A', id: 4, ts: 3200}, {kind: 'A', id: 5, ts: 700, nest: true}, {kind: 'A', id: 6, ts: 6500}, {kind: 'X'}}
+	if err := slidingLine(o, "C08", swCfg{2000, 1000, 0, 10000}, lateDuring, "corpus"); err != nil {
+		return err
+	}
 	pairs := [][2]int64{{10, 5}, {10, 3}, {10, 10}, {5, 10}, {7, 2}, {1000, 250}}
+	nestLate = true
+	defer func() { nestLate = false }()
 	for i := 0; i < ncases; i++ {
 		p := pairs[rng.Intn(len(pairs))]
 		c := swCfg{size: p[0], slide: p[1]}
 		c.ooo = []int64{0, c.size / 2, 3 * c.size}[rng.Intn(3)]
+		c.late = []int64{0, 0, c.slide, 3 * c.size}[rng.Intn(4)] // late rows re-deliver open fired intervals
 		n := 5 + rng.Intn(36)
 		ops := genTimeOps(rng, c.slide, c.ooo, n, nil, rng.Intn(5) == 0)
 		if i%25 == 3 {
